@@ -143,6 +143,98 @@ def fresh(spec, timeout=300):
     return json.loads(r.stdout)
 
 
+# A fresh interpreter costs ~0.8 CPU-s of imports (rdkit, networkx, synkit); two per sampled case were a quarter of the CPU time of
+# the quick tier.  [fresh_many] keeps ONE helper interpreter per worker process: it imports everything once and then NEVER runs a step
+# itself — every history is run in a child forked from it, i.e. from the pristine state of an interpreter that has only imported
+# the modules (module-level caches, class attributes, lru_caches are as empty as in a new interpreter), and dies with its state.
+_ZYG = {"p": None}
+_PRELOAD = ("networkx", "rdkit.Chem", "synkit.Synthesis.Reactor.syn_reactor", "synkit.Synthesis.Reactor.strategy", "synkit.IO.chem_converter",
+            "synkit.Rule", "synkit.Graph.syn_graph", "synkit.Graph.canon_graph", "synkit.Chem.Reaction.standardize")
+
+
+def zygote_main():
+    """the persistent helper: one request per line on stdin ({"specs": [...]}) -> one line of answers on stdout"""
+    import importlib
+    import json
+    import os
+    import select
+    import signal
+    import sys
+    K.quiet()
+    for m in _PRELOAD:
+        try:
+            importlib.import_module(m)
+        except Exception:
+            pass
+    for line in sys.stdin:
+        if not line.strip():
+            continue
+        req = json.loads(line)
+        answers = []
+        for spec in req["specs"]:
+            r, w = os.pipe()
+            pid = os.fork()
+            if pid == 0:
+                code = 0
+                try:
+                    os.close(r)
+                    data = json.dumps(run_steps(spec))
+                except BaseException as e:      # reported to the caller, which fails closed
+                    data = json.dumps({"error": type(e).__name__ + ": " + str(e)[:200]})
+                    code = 1
+                try:
+                    with os.fdopen(w, "w") as f:
+                        f.write(data)
+                finally:
+                    os._exit(code)
+            os.close(w)
+            chunks = []
+            deadline = req.get("timeout", 300)
+            with os.fdopen(r) as f:
+                ok, _, _ = select.select([f], [], [], deadline)
+                if ok:
+                    chunks.append(f.read())
+                else:
+                    os.kill(pid, signal.SIGKILL)
+            os.waitpid(pid, 0)
+            data = "".join(chunks)
+            answers.append(json.loads(data) if data else {"error": "no answer from the history process (timeout)"})
+        sys.stdout.write(json.dumps(answers) + "\n")
+        sys.stdout.flush()
+
+
+def fresh_many(specs, timeout=300):
+    """run each spec in its own process forked from this worker's pristine helper interpreter; falls back to one new
+    interpreter per spec when the helper cannot be used"""
+    import json
+    import select
+    import subprocess
+    import sys
+    try:
+        p = _ZYG["p"]
+        if p is None or p.poll() is not None:
+            p = _ZYG["p"] = subprocess.Popen([sys.executable, "-c", "from harness.gen import c05_hist; c05_hist.zygote_main()"],
+                                             stdin=subprocess.PIPE, stdout=subprocess.PIPE, stderr=subprocess.DEVNULL, text=True)
+        p.stdin.write(json.dumps({"specs": specs, "timeout": timeout}) + "\n")
+        p.stdin.flush()
+        ok, _, _ = select.select([p.stdout], [], [], timeout * len(specs) + 60)
+        line = p.stdout.readline() if ok else ""
+        if not line:
+            raise RuntimeError("helper interpreter gave no answer")
+        out = json.loads(line)
+        if any(isinstance(a, dict) and "error" in a for a in out):
+            raise RuntimeError("history process failed: %r" % [a for a in out if isinstance(a, dict)][:1])
+        return out
+    except Exception:
+        try:
+            if _ZYG["p"] is not None:
+                _ZYG["p"].kill()
+        except Exception:
+            pass
+        _ZYG["p"] = None
+        return [fresh(spec, timeout) for spec in specs]
+
+
 # ------------------------------------------------------------------ building the steps of a case
 
 _FORMS = [dict(), dict(sub_form="graph0"), dict(tpl_form="shared"), dict(sub_form="graph"), dict(tpl_form="rule"), dict(sub_form="syngraph", enum=True),
